@@ -1,4 +1,5 @@
 mod c02;
+mod c05;
 mod common;
 mod world;
 
@@ -63,6 +64,7 @@ fn main() {
     let prop = args.get(1).cloned().unwrap_or_default();
     match prop.as_str() {
         "C02" => run(c02::C02::new(listed_findings("C02")), &args, 3000, 60000),
+        "C05" => run(c05::C05::new(), &args, 2500, 40000),
         _ => {
             eprintln!("usage: verif-harness <property> [--tier quick|thorough] [--seed N] [--cases N] [--out file] [--replay file]");
             std::process::exit(2)
